@@ -105,6 +105,15 @@ Proof.
   cbn [option_map]. rewrite keyset_of_to_j by exact W. reflexivity.
 Qed.
 
+(* ... and through the protojson-style form of the text *)
+Theorem proto_keyset_json_pj_roundtrip ks :
+  wf_pkeyset ks = true -> values_are_bytes ks = true -> read_keyset_json (write_keyset_json_pj ks) = Some ks.
+Proof.
+  intros W V. unfold read_keyset_json, write_keyset_json_pj.
+  rewrite keyset_pj_text_roundtrip by (apply keyset_to_j_ok; assumption).
+  cbn [option_map]. rewrite keyset_of_to_j by exact W. reflexivity.
+Qed.
+
 Lemma info_of_keyset_ok ks : wf_pkeyset ks = true -> info_ok (info_of_keyset ks) = true.
 Proof.
   unfold wf_pkeyset, info_ok, info_of_keyset. intros H. apply andb_true_iff in H. destruct H as [P K].
@@ -125,6 +134,35 @@ Section Handles.
   Variable K : Type.
   Variable ser_k : K -> option kser.
   Variable par_k : kser -> option K.
+
+  (* the reader side alone: ANY text the JSON reader reads as the message of the
+     handle (whatever names, enum forms, base64 alphabet, padding, white space,
+     member order, escapes it uses) gives the handle back *)
+  Theorem json_cleartext_read_any_text es ks text :
+    wf_handle K ser_k par_k es ->
+    entries_to_proto_keyset K ser_k es = Some ks ->
+    read_keyset_json text = Some ks ->
+    read_cleartext_json K par_k text = Some es.
+  Proof.
+    intros Hwf E R. destruct (keyset_entries_roundtrip K ser_k par_k es Hwf) as (ks' & E1 & E2 & E3 & E4).
+    assert (ks' = ks) by congruence. subst ks'.
+    unfold read_cleartext_json. rewrite R.
+    destruct (pks_keys ks) eqn:Ek; [contradiction|].
+    unfold handle_from_proto. rewrite E2. apply (new_from_entries_wf K ser_k par_k). exact Hwf.
+  Qed.
+
+  (* Write then Read with the text in protojson's form *)
+  Theorem json_cleartext_pj_roundtrip es text :
+    wf_handle K ser_k par_k es ->
+    (forall ks, entries_to_proto_keyset K ser_k es = Some ks -> values_are_bytes ks = true) ->
+    write_cleartext_json_pj K ser_k es = Some text ->
+    read_cleartext_json K par_k text = Some es.
+  Proof.
+    intros Hwf Hv Hw. destruct (keyset_entries_roundtrip K ser_k par_k es Hwf) as (ks & E1 & E2 & E3 & E4).
+    unfold write_cleartext_json_pj in Hw. rewrite E1 in Hw. cbn [option_map] in Hw. inversion Hw; subst text.
+    apply (json_cleartext_read_any_text es ks); [exact Hwf|exact E1|].
+    apply proto_keyset_json_pj_roundtrip; [exact E3|apply Hv; exact E1].
+  Qed.
 
   (* insecurecleartextkeyset.Write then Read, JSON *)
   Theorem json_cleartext_roundtrip es text :
@@ -159,6 +197,37 @@ Section Handles.
     2:{ unfold encrypted_ok. cbn [je_ct je_info]. rewrite (aead_bytes ks E1), info_of_keyset_ok by exact E3. reflexivity. }
     cbn [je_ct]. rewrite aead_correct. rewrite read_write_keyset; [| exact E3 | apply Hl; exact E1].
     unfold handle_from_proto. rewrite E2. apply (new_from_entries_wf K ser_k par_k). exact Hwf.
+  Qed.
+
+  (* the reader side alone, encrypted: ANY text the reader reads as an
+     EncryptedKeyset whose ciphertext is the AEAD encryption of the binary keyset *)
+  Theorem json_encrypted_read_any_text es ks ad text e :
+    wf_handle K ser_k par_k es ->
+    entries_to_proto_keyset K ser_k es = Some ks ->
+    N.of_nat (length (write_keyset ks)) < two64 ->
+    encrypted_of_json_text text = Some e -> je_ct e = aead_enc ad (write_keyset ks) ->
+    read_encrypted_json K par_k aead_dec text ad = Some es.
+  Proof.
+    intros Hwf E L R C. destruct (keyset_entries_roundtrip K ser_k par_k es Hwf) as (ks' & E1 & E2 & E3 & E4).
+    assert (ks' = ks) by congruence. subst ks'.
+    unfold read_encrypted_json. rewrite R, C, aead_correct. rewrite read_write_keyset; [| exact E3 | exact L].
+    unfold handle_from_proto. rewrite E2. apply (new_from_entries_wf K ser_k par_k). exact Hwf.
+  Qed.
+
+  Theorem json_encrypted_pj_roundtrip es ad text :
+    wf_handle K ser_k par_k es ->
+    write_encrypted_json_pj K ser_k aead_enc es ad = Some text ->
+    (forall ks, entries_to_proto_keyset K ser_k es = Some ks ->
+       N.of_nat (length (write_keyset ks)) < two64 /\ bytes_okb (aead_enc ad (write_keyset ks)) = true) ->
+    read_encrypted_json K par_k aead_dec text ad = Some es.
+  Proof.
+    intros Hwf Hw Hlb. destruct (keyset_entries_roundtrip K ser_k par_k es Hwf) as (ks & E1 & E2 & E3 & E4).
+    destruct (Hlb ks E1) as [L B].
+    unfold write_encrypted_json_pj in Hw. rewrite E1 in Hw. inversion Hw; subst text. clear Hw.
+    apply (json_encrypted_read_any_text es ks ad _ (mkJE (aead_enc ad (write_keyset ks)) (Some (info_of_keyset ks))));
+      [exact Hwf|exact E1|exact L| |reflexivity].
+    apply encrypted_pj_text_roundtrip. unfold encrypted_ok. cbn [je_ct je_info].
+    rewrite B, info_of_keyset_ok by exact E3. reflexivity.
   Qed.
 End Handles.
 
